@@ -1021,6 +1021,19 @@ Proof.
   unfold refines_spec. vm_compute. intros [_ H]. discriminate H.
 Qed.
 
+(* the same finding on a set: t = {2, 0}; transform_<item>(False, lambda x: x): False == 0 is found,
+   the specification keeps {0, 2}; the model (and the implementation:
+   A(ts={1, 2}).transform_t(True, lambda x: x).ts == {True, 2}) replaces 0 by False *)
+Example C06_by_value_transforms_argument_set_refuted :
+  elem_guard ex_ct ex_state 0 3 KSet = true /\
+  set_change_ok ex_ct ex_state 0 3 (VBool false) (trp (Some FId) (VBool false)) = false /\
+  ~ refines_spec ex_ct [] ex_state 0 (HTransformItem 3) (mkh [VBool false] true true VMissing false None None [] (Some FId))
+                 (STransformItem 3) (mkah [ABool false] true true AMissing false None None [] (Some FId)).
+Proof.
+  split; [vm_compute; reflexivity|]. split; [vm_compute; reflexivity|].
+  unfold refines_spec. vm_compute. intros [_ H]. discriminate H.
+Qed.
+
 (* non-vacuity: falsy elements, equal elements at several positions, negative index *)
 Example C06_examples :
   let ct := @nil cls in
@@ -1071,4 +1084,5 @@ Print Assumptions C06_preparer_examples.
 Print Assumptions C06_elem_helpers_nested_refine_guarded_partial.
 Print Assumptions C06_nested_guard_examples.
 Print Assumptions C06_by_value_transforms_argument_refuted.
+Print Assumptions C06_by_value_transforms_argument_set_refuted.
 Print Assumptions C06_examples.
